@@ -414,14 +414,20 @@ def interacting(ctx, A, w, W, g0, perm, base):
                  "cross_local_clustering", "cross_global_clustering", "cross_average_path_length",
                  "cross_closeness", "cross_betweenness", "nsi_cross_degree",
                  "nsi_cross_local_clustering", "nsi_cross_transitivity", "nsi_cross_mean_degree",
-                 "cross_adjacency", "cross_path_lengths"):
+                 "cross_adjacency", "cross_path_lengths", "cross_transitivity_sparse",
+                 "cross_local_clustering_sparse", "cross_global_clustering_sparse",
+                 "nsi_cross_edge_density", "nsi_cross_global_clustering",
+                 "nsi_cross_closeness_centrality", "cross_link_attribute"):
+        args_a, args_b = (L1, L2), (P1, P2)
+        if name == "cross_link_attribute":
+            args_a, args_b = ("w", L1, L2), ("w", P1, P2)
         try:
-            va = quiet(getattr(a, name), L1, L2)
+            va = quiet(getattr(a, name), *args_a)
         except Exception:  # noqa
             ctx.count("InteractingNetworks:raises")
             continue
         try:
-            vb = quiet(getattr(b, name), P1, P2)
+            vb = quiet(getattr(b, name), *args_b)
         except Exception as ex:  # noqa
             ctx.fail({"kind": "raises-on-permuted", "class": "InteractingNetworks", "measure": name},
                      f"InteractingNetworks.{name} raises {type(ex).__name__} on the renumbered network",
